@@ -574,9 +574,15 @@ class OptionsParser:
 
         for idx, ch in enumerate(line):
             if escaped:
-                option += ch
                 escaped = False
-            elif ch == '\\':
+
+                if ch == '"':
+                    option += ch
+                    continue
+
+                option += '\\'
+
+            if ch == '\\':
                 escaped = True
             elif ch == '"':
                 quoted = not quoted
@@ -592,13 +598,14 @@ class OptionsParser:
         else:
             idx = len(line)
 
+        if escaped:
+            option += '\\'
+
         self._add_option(option)
         option = ''
 
         if quoted:
             raise ValueError('Unbalanced quote in options')
-        elif escaped:
-            raise ValueError('Unbalanced backslash in options')
 
         return line[idx:].strip()
 
